@@ -294,7 +294,7 @@ def fmtPlusI (q : Int) : List Char :=
 def resolveSymbol (symbol : List Char) (charge : Option Int) : List Char :=
   match charge with
   | some q =>
-    let s := rstripSet "012345678+-".toList symbol
+    let s := rstripSet ['0', '1', '2', '3', '4', '5', '6', '7', '8', '+', '-'] symbol
     if q ≠ 0 then s ++ (fmtPlusI q).reverse else s
   | none =>
     match symbol.reverse with
